@@ -466,6 +466,17 @@ def _infer_dtype(data):
     if data and isinstance(data[0], int):
         max_value = max(data)
         min_value = min(data)
+        if min_value < 0:
+            # Need a signed type that can hold both the minimum and the maximum value
+            magnitude = max(max_value, -1 - min_value)
+            if magnitude >= 2**31:
+                return np.dtype('int64')
+            elif magnitude >= 2**15:
+                return np.dtype('int32')
+            elif magnitude >= 2**7:
+                return np.dtype('int16')
+            else:
+                return np.dtype('int8')
         if max_value >= 2**63 and min_value >= 0:
             return np.dtype('uint64')
         elif max_value >= 2**32 or min_value < -1 * 2**31:
